@@ -39,7 +39,10 @@ def register(R):
              "0 <= s._attributes and s._attributes < 8192 and 0 <= s._set_attributes and s._set_attributes < 8192"
              " and (s._attributes & ~s._set_attributes) == 0"
              " and implies(s._null, s._color is None and s._bgcolor is None and s._set_attributes == 0 and s._attributes == 0 and not s._link)"
-             " and s._hash == style_hash(s)")
+             " and s._hash == style_hash(s)"
+             # the cached string form, when present, is the one of these very fields
+             " and implies(s._style_definition is not None, s._style_definition == style_defn(s._color, s._bgcolor, s._attributes, s._set_attributes, s._link))")
+    R.ufun("style_defn", "ostr")
     # the property's combination rule, per field: the right operand wins exactly where it specifies a value
     R.specfn("add_color", ["a", "b"], "b._color if b._color is not None else a._color")
     R.specfn("add_bgcolor", ["a", "b"], "b._bgcolor if b._bgcolor is not None else a._bgcolor")
@@ -81,7 +84,8 @@ def register(R):
         requires=["wf_style(self)"],
         ensures=["result._link == link", "result._color == self._color and result._bgcolor == self._bgcolor",
                  "result._attributes == self._attributes and result._set_attributes == self._set_attributes",
-                 "result._hash == style_hash(result)"],
+                 "result._hash == style_hash(result)",
+                 "implies(result._style_definition is not None, result._style_definition == style_defn(result._color, result._bgcolor, result._attributes, result._set_attributes, result._link))"],
         native=False,
     )
     R.contract(
